@@ -519,7 +519,7 @@ template<class P> static void run_termset(P& p, const std::vector<TermSpec>& ts,
                     add_viol(prop, kind, subject + " | " + oc.name, in, det, known, known.empty() ? 6 : 2);
                 }
                 outcomes[prop].insert(std::string(ex.ok ? "tokens" : "lexerr") + std::to_string(std::min<size_t>(ex.toks.size(), 4)) + (oi ? "-o" + std::to_string(oi) : ""));
-                if (ex.ok && ex.toks.size() >= 2 && !in.empty()) add_sample(prop, jw::Obj().s("terms", subject).s("options", oc.name).s("input_hex", jw::hex(in)).s("tokens", exp_t).str());
+                if (ex.ok && ex.toks.size() >= 2 && !in.empty() && in.size() <= 48) add_sample(prop, jw::Obj().s("terms", subject).s("options", oc.name).s("input_hex", jw::hex(in)).s("tokens", exp_t).str());
             } else {
                 // statement grammar with recovery (C10 only): every term value that reaches a functor must carry its true position,
                 // and every message must be prefixed with the true position of the term it is about
